@@ -7,6 +7,7 @@ import (
 	"context"
 	"encoding/json"
 	"fmt"
+	"github.com/6tail/lunar-go/calendar"
 	"os"
 	"os/exec"
 	"path/filepath"
@@ -165,6 +166,20 @@ func quickYears(seed int64, maxYear int) []int {
 	// century years: the Julian and Gregorian leap rules differ exactly there
 	for y := 100; y <= 2400 && y <= maxYear; y += 100 {
 		in[y] = true
+	}
+	// boundary entries of the library's hard-coded year lists (first, last) and the year after each
+	for _, lst := range [][]int{calendar.LEAP_11, calendar.LEAP_12} {
+		var inRange []int
+		for _, y := range lst {
+			if y >= 1 && y < maxYear {
+				inRange = append(inRange, y)
+			}
+		}
+		if len(inRange) > 0 {
+			for _, y := range []int{inRange[0], inRange[len(inRange)-1]} {
+				in[y], in[y+1] = true, true
+			}
+		}
 	}
 	ys := make([]int, 0, len(in))
 	for y := range in {
